@@ -65,6 +65,7 @@ def short_func(frame):
     for _ in range(4):
         f = re.sub(r"<[^<>]*>", "", f)
     f = re.sub(r"\(.*\)\s*(const)?$", "", f.replace("operator()", "operator@@")).replace("operator@@", "operator()")
+    f = f.strip().split(" ")[-1]          # drop a leading return type
     parts = [p for p in f.split("::") if p and p not in ("GNU_gama", "local", "g3")]
     return ("::".join(parts[-2:]) if parts else frame[:40]).replace(" ", "")
 
@@ -87,7 +88,7 @@ def sanitizer(err):
     if kind is None:
         return None
     func = "?"
-    for fm in re.finditer(r"#\d+ 0x[0-9a-f]+ in (.+?) (/[^\s:]+):(\d+)", err):
+    for fm in re.finditer(r"#\d+ 0x[0-9a-f]+ in (.+?) (/[^\s:]+)(:\d+)?", err):
         if "/repo" in fm.group(2) or vlib.REPO in fm.group(2):
             func = short_func(fm.group(1))
             break
@@ -625,6 +626,9 @@ def main():
         vlib.log("[C11 %s] %.1fs" % (sp, time.time() - t))
     for sig, n in sorted(ck.viol_sigs.items()):
         vlib.log("  unlisted signature x%d: %s" % (n, sig))
+    sk = ck.counters.get("transitions_skipped_known_sanitizer_class", 0)
+    if sk:
+        ck.notes.append("automaton: %d transitions were not executed because the same (parser state, event, pending cluster empty?, muted region?) class had already produced a sanitizer report or a hang in this run; each such class is reported once" % sk)
     ck.counters["distinct_nontrivial"] = ck.counters.get("states", 0)
     ck.counters["evaluations"] = ck.counters.get("transitions", 0)
     if only != SPACES:
